@@ -75,7 +75,7 @@ def step (toks : List String) (impl : String) : Res :=
   | some "procoffer" =>
     let limit := kvNat toks "limit"
     let kind := kv toks "kind"
-    let first := if kind == "all_declined" || kind == "accepted_in_progress" then "ok" else "err"
+    let first := if kind == "all_declined" || kind == "accepted_in_progress" || kind == "accepted_after_stop" then "ok" else "err"
     -- while an accepted transfer is in progress its slot is held (Pm: holding counts it); otherwise it is back
     let expectFree := if kind == "accepted_in_progress" then limit - 1 else limit
     { model := s!"{first} free={expectFree}",
